@@ -88,7 +88,9 @@ Definition send_frame (c : wcfg) (st : wstate) (opcode : N) (payload : bytes) (o
     let '(cc, shared) := get_compressor c st override in
     let '(z, cc') := comp (w_notakeover c) cc payload in
     let body := removesuffix DEFLATE_TRAILING z in
-    let st' := if shared then mkws (Some cc') (ws_closing st) else st in
+    (* shared compressor: its new state is kept; per-message override: `self._compressobj = None` — the peer's single
+       decompressor moves on with this message, so the shared history must never be referenced again *)
+    let st' := if shared then mkws (Some cc') (ws_closing st) else mkws None (ws_closing st) in
     match write_frame (w_mask c) RSV1_COMPRESSED opcode body rbits with
     | FOk w => SSent w (lenN body) (if send_sync (lenN payload) then PSync else PAsync) st'
     | FLayout => SLayout
@@ -190,27 +192,18 @@ Definition fits (rc : cfg) (o : sop) (wlen : N) : bool :=
 Definition all_fit (rc : cfg) (sent : list (sop * N)) : bool :=
   forallb (fun x => fits rc (fst x) (snd x)) sent.
 
-(* Per-message `compress` overrides that keep the two deflate contexts paired.  An override message is
-   compressed by a NEW compressor but inflated by the peer's ONE decompressor, so
-     - it needs the extension to have been negotiated at all (else the peer refuses RSV1), and
-     - with context takeover, once the shared compressor has history (a shared message was sent) an override
-       advances only the peer's window: every later shared message is then inflated against the wrong history.
-   State: (shared compressor has been used, contexts desynchronised). *)
+(* Per-message `compress` overrides: the message is compressed by a NEW compressor and inflated by the peer's ONE
+   decompressor; the writer then forgets its shared compressor, so the contexts stay paired whatever follows.  What
+   remains is that an override needs the extension to have been negotiated at all (else the peer refuses RSV1). *)
 Definition is_compressed_send (c : wcfg) (opcode override : N) : bool := negb (send_plain override (w_compress c) opcode).
 
-Fixpoint safe_overrides_from (c : wcfg) (used poisoned : bool) (ops : list sop) : bool :=
-  match ops with
-  | [] => true
-  | Send opcode p override _ :: rest =>
-    if is_compressed_send c opcode override then
-      if negb (override =? 0) then
-        negb (w_compress c =? 0)
-        && safe_overrides_from c used (poisoned || (used && negb (w_notakeover c))) rest
-      else negb poisoned && safe_overrides_from c true poisoned rest
-    else safe_overrides_from c used poisoned rest
-  | Close _ _ _ :: rest => safe_overrides_from c used poisoned rest
+Definition op_safe (c : wcfg) (o : sop) : bool :=
+  match o with
+  | Send opcode _ override _ =>
+    if is_compressed_send c opcode override && negb (override =? 0) then negb (w_compress c =? 0) else true
+  | Close _ _ _ => true
   end.
-Definition safe_overrides (c : wcfg) (ops : list sop) : bool := safe_overrides_from c false false ops.
+Definition safe_overrides (c : wcfg) (ops : list sop) : bool := forallb (op_safe c) ops.
 
 (* nothing but CLOSE / PING / PONG is accepted once close() was called: operations the writer accepts *)
 Definition sent_ops {Cc} (r : wout Cc) : list sop := map fst (wo_sent r).
